@@ -70,6 +70,9 @@ def plan(tier, seed):
 		sch = [(6, 3, 4, 'u2', 'u2'), (5, 4, 3, 'u2', 'u2'), (5, 3, 4, 'u8', 'u4'), (4, 4, 4, 'u4', 'i2'), (6, 2, 6, 'i8', 'u8')]
 	for container in ('array', 'hdf5', 'siglist'):
 		tasks.append(('t_big', dict(container=container, tier=tier)))
+	for func in ('pairwise', 'pairwise-flat', 'matrix'):
+		for dtype in ('u2', 'i8'):
+			tasks.append(('t_small_full', dict(func=func, dtype=dtype)))
 	for N, T, P, dq, dr in sch:
 		tasks.append(('t_sched_child', dict(N=N, T=T, P=P, dq=dq, dr=dr)))
 	return tasks
@@ -248,6 +251,33 @@ def t_configs(tier, shard, nshards):
 		finally:
 			fx.close()
 	sh.sample(dict(family='configs', config=v))
+	return sh
+
+
+def t_small_full(func, dtype):
+	"""Full product (no deviation bound) over the dimensions that meet in the degenerate sizes: every collection (incl. one signature, all
+	empty) x every container x every selection of 0..2 indices (and none) x every kind of output buffer x thread counts 1 / 2.  Before a call
+	that lets the library allocate its result, a block of the same size filled with a sentinel is allocated and freed, so that a cell the
+	call never writes shows the sentinel rather than a lucky zero."""
+	global DEFAULT
+	sh = Shard()
+	D = dims('quick')
+	DEFAULT = {k: D[k][0] for k in D}
+	idx = ['none'] + [f'{k}:{",".join(map(str, t))}' for k, t in index_lists(5, 2)[1:] if k != 'tuple']
+	with fixtures.workdir('c05f') as d:
+		fx = Fix(d)
+		try:
+			for coll, container, index, out, threads in itertools.product(D['coll'], D['container'], idx, D['out'], [1, 2]):
+				v = dict(DEFAULT, coll=coll, container=container, dtype=dtype, func=func, chunk=None if func != 'matrix' else 1, index=index, out=out, threads=threads, qdtype='same')
+				if out == 'none':
+					for size in (1, 2, 4, 9, 16, 25):
+						junk = np.full(size, SENT, dtype=np.float32)
+						del junk
+				run_config(sh, fx, v)
+		finally:
+			fx.close()
+	sh.count('small_full_product_cases', sh.evals)
+	sh.sample(dict(family='small_full', config=v))
 	return sh
 
 
